@@ -97,7 +97,21 @@ def focus_key(node):
     return None
 
 
+class Late:
+    """an event made of Capture objects, kept as delivered and read when the run is over (what was delivered must not change)"""
+
+    def __init__(self, data, **kw):
+        self.data, self.kw = data, kw
+
+    def read(self):
+        return rec_of_now(self.data, **self.kw)
+
+
 def rec_of(data, raw=False, total=False):
+    return Late(data, raw=raw, total=total)
+
+
+def rec_of_now(data, raw=False, total=False):
     """data: {key: Capture} -> sorted [[key, val]] (imm) / [[key, [vals]]] (tot) / with names when raw."""
     out = []
     for k, c in data.items():
@@ -257,7 +271,7 @@ def to_events(log):
             e["dlv"] = []
             events.append(e)
         else:
-            events[-1]["dlv"].append({"h": rec[1], "rec": rec[2]})
+            events[-1]["dlv"].append({"h": rec[1], "rec": rec[2].read() if isinstance(rec[2], Late) else rec[2]})
     return events
 
 
